@@ -16,7 +16,7 @@ RULE = ("schemas with constant, callable and absent defaults on every field fami
         "mutations: after each step the values AND the user-defined flag of every path (all depths, list items) are "
         "compared with a prediction computed from the state observed before the step; non-trivial = >= 1 accepted "
         "assignment, >= 1 rejected one and >= 1 reset judged; distinct = distinct (schema, history)")
-REQUIRED = ("schemas_with_keys_named_like_config_methods", "forwarding_setter_assignments_judged:partly-rejected", "equal_items_with_other_status_judged", "dynamic_sections_reset_after_runtime_fields", "callable_object_defaults", "dotted_status_queries", "schemas_with_unnormalised_defaults", "fresh_default_checks", "callable_default_checks", "flag_maps_compared", "accepted_assignments_judged",
+REQUIRED = ("items_moved_to_a_second_configuration", "trees_loaded_without_the_final_validation", "schemas_with_keys_named_like_config_methods", "forwarding_setter_assignments_judged:partly-rejected", "equal_items_with_other_status_judged", "dynamic_sections_reset_after_runtime_fields", "callable_object_defaults", "dotted_status_queries", "schemas_with_unnormalised_defaults", "fresh_default_checks", "callable_default_checks", "flag_maps_compared", "accepted_assignments_judged",
             "rejected_ops_judged", "resets_judged", "loads_judged")
 ASSUMPTIONS = ["in-place mutation of a default list/dict does not make it user-defined (the statement says 'assigned or "
                "loaded')", "loads that fail are not judged (their partial effect is unspecified)"]
@@ -281,5 +281,55 @@ def run(case, ctx, res):
             res.count("loads_judged")
         else:
             res.count("inplace_ops_judged")
+    # ---- items of a configuration list that travel, as objects, to the same list of a second configuration keep their
+    # values and their status: what nobody assigned is still not user-defined after the move
+    from ..common import defined_map, eqstar, plain as _plain
+
+    twin = None
+    for p, nd in spec.walk(drv.root):
+        if nd["kind"] != "field" or nd["family"] != "list" or "[]" in p or not nd.get("item") or nd["item"]["kind"] == "field":
+            continue
+        try:
+            lst = spec.get_path(drv.cfg, p)
+        except Exception:
+            continue
+        if not isinstance(lst, list) or not len(lst) or not all(isinstance(it, cc.Config) for it in lst):
+            continue
+        want = [(defined_map(it), _plain(it)) for it in lst]
+        items = list(lst)
+        try:
+            if twin is None:
+                twin = cc.Config(drv.built.schema, key_filename=drv.keyfile)
+            route = ("assign", "append", "extend")[len(p) % 3]
+            if route == "assign":
+                twin[p] = lst
+            else:
+                if spec.get_path(twin, p) is None:
+                    twin[p] = []
+                tl = spec.get_path(twin, p)
+                del tl[:]
+                if route == "append":
+                    for it in items:
+                        tl.append(it)
+                else:
+                    tl.extend(items)
+            arrived = list(spec.get_path(twin, p))
+        except Exception:
+            res.count("item_moves_not_applicable")
+            continue
+        res.count("items_moved_to_a_second_configuration")
+        if len(arrived) != len(want):
+            res.viol("M-state", "moved-items:count", "%s: %d item(s) handed to a second configuration (%s), it holds %d" % (p, len(want), route, len(arrived)))
+            return
+        for i, (it, (flags, values)) in enumerate(zip(arrived, want)):
+            got_flags, got_values = defined_map(it), _plain(it)
+            if not eqstar(got_values, values):
+                res.viol("M-state", "moved-items:value", "%s[%d] handed to a second configuration (%s): values %r -> %r" % (p, i, route, values, got_values))
+                return
+            if got_flags != flags:
+                diff = sorted(k for k in set(flags) | set(got_flags) if flags.get(k) != got_flags.get(k))
+                res.viol("M-state", "moved-items:flag", "%s[%d] handed to a second configuration (%s): user-defined status of %s changed "
+                         "(%r -> %r)" % (p, i, route, diff[:4], [flags.get(k) for k in diff[:4]], [got_flags.get(k) for k in diff[:4]]))
+                return
     if acc and rej and resets:
         res.nontrivial(case["schema"], case["ops"])
